@@ -202,6 +202,15 @@ def clause_of(why, want, got, span):
             "rec": "recording", "onStart": "recording", "onEnd": "recording", "ts": "tracestate"}.get(why, why)
 
 
+def dup_class(nprov, dups):
+    """classification only: is the number of duplicated IDs what seeds of 31 bits predict for nprov generators
+    (e = nprov^2 / 2^32 pairs with equal seeds, each pair duplicating a root trace ID and two span IDs here), or more"""
+    e = nprov * nprov / 2.0 ** 32
+    if e >= 0.001 and dups <= 2 * (3 * e + 6 * e ** 0.5 + 3):
+        return "within-31-bit-seed-birthday-bound"
+    return "systematic"
+
+
 def add_counters(ctx, res):
     for k, v in res["counters"].items():
         ctx.extra.setdefault("counters", {}).setdefault(k, 0)
@@ -299,6 +308,8 @@ def run(ctx):
             sig["providers"] = "one" if v.get("nprov", 1) == 1 else "several"
         if v.get("kind") == "ids":
             sig["src"] = v.get("src")
+            if v.get("why") in ("span-id-not-unique", "root-trace-id-not-fresh"):
+                sig["dupClass"] = dup_class(v.get("nprov", 1), v.get("n", 0) - v.get("distinct", 0))
         if v.get("kind") == "proc":
             sig["proc"] = v.get("proc")
             sig["flags"] = "00/01" if v.get("fl", 0) <= 1 else "other-bits"
